@@ -99,11 +99,13 @@ Fixpoint c14_scan (c : config) (kt : list N) (prev : ostep) (h : list ev) (obs :
   | _, _ => [i]
   end.
 
-Definition c14_failures (k : kcase) : list nat :=
+(* the signal half of the C14 monitor; [c14_failures] (defined after the C04 spec interpreter below) adds "swallowed = no trace" *)
+Definition c14_sig_failures (k : kcase) : list nat :=
   c14_scan (kc_cfg k) [] (observe (kc_cfg k) (init (kc_cfg k)) silent) (kc_events k) (kc_obs k) 0.
 
-(* view comparison: model signal counts vs implementation signal counts *)
-Definition c14_mismatch (k : kcase) : option nat :=
+(* view comparison: model signal counts vs implementation signal counts ([c14_mismatch], defined after the C04 view below,
+   adds State() and the Note-On triples: a swallowed press must leave no trace that shows later) *)
+Definition c14_sig_mismatch (k : kcase) : option nat :=
   first_diff Nat.eqb 0 (map o_sigs (fst (model_trace (kc_cfg k) (kc_events k)))) (map o_sigs (kc_obs k)).
 
 Definition c14_fired (k : kcase) : bool := existsb (fun o => negb (Nat.eqb (o_sigs o) 0)) (kc_obs k).
@@ -375,6 +377,17 @@ Fixpoint map2 {A B C} (f : A -> B -> C) (l : list A) (m : list B) : list C :=
 Definition c04_mismatch (k : kcase) : option nat :=
   first_diff c04_view_eqb 0 (map2 (c04_view_step (kc_cfg k)) (kc_events k) (fst (model_trace (kc_cfg k) (kc_events k))))
              (map2 (c04_view_step (kc_cfg k)) (kc_events k) (kc_obs k)).
+
+(* C14 monitor: signal exactly at the completing press, that press silent and state-neutral, AND a swallowed press leaves no trace:
+   State() after every later event is what the property's arithmetic gives when the swallowed press is ignored by the action
+   dispatch (the spec interpreter of C04: it neither steps nor counts the swallowed key as held for pair detection) *)
+Definition c14_state_step (c : config) (w : wctx) (e : ev) (o : ostep) : bool := exp_matches c (w_exp (next_ctx c w e o)) o.
+Definition c14_failures (k : kcase) : list nat :=
+  c14_sig_failures k ++ fst (walk (kc_cfg k) (c14_state_step (kc_cfg k)) (init_ctx (kc_cfg k)) (kc_events k) (kc_obs k) 0).
+
+(* C14 view: termination-signal counts, then State() after every event and the Note-On triple (or silence) of note-key presses *)
+Definition c14_mismatch (k : kcase) : option nat :=
+  match c14_sig_mismatch k with Some i => Some i | None => c04_mismatch k end.
 
 (* ---------------------------------------------------------------------- C05 *)
 Definition c05_failures (k : kcase) : list nat :=
